@@ -23,6 +23,11 @@ fn key_pool() -> Vec<&'static str> {
         "[2^63]", "[2.0^63]", "[0-2^63]", "[0-2.0^63]", "[2^63-1]", "[2^53]", "[9007199254740992.0]", "[2^53+1]",
         "V(2^63)", "V(2.0^63)", "V(0-2^63)", "V(0-2.0^63)", "V(2^64)", "V(2.0^64)", "V(2^53)", "V(9007199254740992.0)",
         "{2^63: 1}", "{2.0^63: 1}", "[[2^63, 2.0^64]]", "[[2.0^63, 2^64]]",
+        // the same boundaries in the OTHER integer representation (literal = Small; `^`, `n^1`, big differences = Big)
+        "(0-9223372036854775807-1)", "((0-2)^63)", "9223372036854775807", "(9223372036854775807^1)", "(0-9223372036854775807)",
+        "(0-2^63+1)", "9007199254740992", "9007199254740993", "2147483648", "(0-2147483648)", "4294967296", "(2^70+0-2^70)",
+        "(1^1)", "(2^70-1-2^70)", "[0-9223372036854775807-1]", "V(0-9223372036854775807-1)", "[9223372036854775807]",
+        "V(9223372036854775807)", "{0-9223372036854775807-1: 1}", "{0-2^63: 1}",
         // other key kinds
         "null", "\"a\"", "\"1\"", "\"\"", "B\"a\"",
         // nested in lists, vectors, dicts
